@@ -577,6 +577,31 @@ def _on_alarm(signum, frame):
     raise _Hang()
 
 
+SKIPPED = 'skip:hang'      # what `guarded` returns once the code under test has hung six times: not run, not judged
+
+
+def guarded(fn, default='err:Hang'):
+    """Call the code under test directly (a parser function, not a whole request) under the same alarm as requests:
+    a function that does not return is an observation (`default`), counted like a request that hangs."""
+    import signal
+    import threading
+    if HANG['n'] >= 6:
+        return SKIPPED
+    if threading.current_thread() is not threading.main_thread():
+        return fn()
+    old = signal.signal(signal.SIGALRM, _on_alarm)
+    signal.setitimer(signal.ITIMER_REAL, globals()['REQUEST_TIMEOUT'])
+    try:
+        return fn()
+    except _Hang:
+        HANG['n'] += 1
+        globals()['REQUEST_TIMEOUT'] = 3
+        return default
+    finally:
+        signal.setitimer(signal.ITIMER_REAL, 0)
+        signal.signal(signal.SIGALRM, old)
+
+
 def call(case):
     """Run one request; returns {'status': int, 'exc': {...}|None, 'escaped': bool, 'headers': [...], 'malformed': str|None}.
 
@@ -590,8 +615,8 @@ def call(case):
                                        'msg': 'no answer within %ds' % REQUEST_TIMEOUT}, 'escaped': True, 'headers': [],
                 'malformed': None}
     if HANG['n'] >= 6:
-        hang_obs['exc']['msg'] = 'not run: the code under test already hung on %d requests' % HANG['n']
-        return hang_obs
+        # the verdict has its failing inputs; what is not run is not judged
+        return {'status': 200, 'skipped': True, 'exc': None, 'escaped': False, 'headers': [], 'malformed': None}
     env = build_environ(case)
     got = {'calls': 0}
 
@@ -629,7 +654,7 @@ def call(case):
             HANG['n'] += 1
             globals()['REQUEST_TIMEOUT'] = 3
             return hang_obs
-        except Exception:
+        except (Exception, SystemExit):      # whatever comes out of the WSGI callable is an observation
             escaped = describe_exc(*sys.exc_info())
     finally:
         if use_alarm:
